@@ -14,9 +14,9 @@
    decoders (Base and UTF, both directions) compute a function of the concatenation only and never reach the OOB
    outcome.  Hypotheses are the honest ones: sizes below 2^60 and, for UTF, the size guard of transform.c:158.
    "NULL or accepted by the inverse" is proved for arbitrary input of every primary pair (NONE<->Base x3, UTF-8<->UTF-16 x2
-   byte orders); UTF_ANY is reduced to those by C20_utf_any_detect.  NOT covered by a theorem (model + correspondence
-   only): the composite pairs that decode AND encode (Base -> other Base, UTF-16 -> UTF-16), because the region
-   structure of the intermediate object enters the size guard. *)
+   byte orders); all nine Base -> Base pairs are covered by C20_base_recode_all; UTF_ANY is reduced to the explicit
+   formats by C20_utf_any_detect.  NOT covered by a theorem (model + correspondence only): UTF-16 -> UTF-16 (decode to
+   UTF-8, then encode), because the region sizes of the intermediate object enter the size guard of transform.c:158. *)
 From Coq Require Import ZArith List Bool Lia.
 From Verif Require Import Word Gen_transform Transform Transform_proofs Transform32_proofs TransformUtf_proofs.
 Import ListNotations.
@@ -92,6 +92,17 @@ Theorem C20_base32hex_decode_total : forall d, wf_data d ->
              exists e, transform t F_NONE F_BASE32HEX = Ok e).
 Proof. exact base32hex_decode_total. Qed.
 Print Assumptions C20_base32hex_decode_total.
+
+(* every ordered pair of Base32 / Base32Hex / Base64 (decode, then encode the decoder's multi-region object): arbitrary
+   input and split; result = encode(decode(concatenation)); NULL exactly when the decoder's fold rejects; never OOB *)
+Theorem C20_base_recode_all : forall fi fo, (fi = 5 \/ fi = 6 \/ fi = 7) -> (fo = 5 \/ fo = 6 \/ fo = 7) ->
+  forall d, wf_data d ->
+    flat_res (transform d fi fo) =
+      (if dsize d =? 0 then Ok (flat d)
+       else match base_dec fi (flat d) with Ok V => Ok (base_enc fo V) | Null => Null | OOB s => OOB s end) /\
+    (forall site, transform d fi fo <> OOB site).
+Proof. exact base_recode_all. Qed.
+Print Assumptions C20_base_recode_all.
 
 (* ---------------------------------------------------------------- UTF-8 <-> UTF-16 *)
 
